@@ -889,3 +889,11 @@ Proof.
   destruct (classify r); destruct H1; assumption.
 Qed.
 Print Assumptions out_grows.
+
+(* ------------------------------------------------------------------ *)
+(* Everything proved through this layer is a statement about [walk_body].  The structural tie of [walk_body] to
+   soyhtml/exec.go -- Proofs/WalkTie.v: the tree of events of every clause of state.walk, extracted from the Go
+   source on every run, has the same set of paths as the hand-written event tree of the model's case; Proofs/WalkTieProbes.v: those event
+   lists are what [walk_body] does on probe nodes -- is therefore an obligation of every property that imports this
+   file (required last, so that none of its names is visible above). *)
+From Soy Require Import Proofs.WalkTie Proofs.WalkTieProbes.
